@@ -153,17 +153,25 @@ LedgerUsers(nd, s, s2) == {u \in Users : ~ReqTouched(s, s2, u) /\ ~PoolAct(nd.a,
 C07Ledger(nd, s, s2) ==
   \A u \in LedgerUsers(nd, s, s2) : \A d \in {"uaa", "ubb", "ucc"} :
      s2.bal[u][d] - s.bal[u][d] = C07OwnerFlow(s, s2, u, d)
-CancelAnte(nd, s) == LET a == nd.args IN
+(* "not in its placement batch" by the harness's OWN clock (st.og): at least one end-of-block with a due batch of the *)
+(* order's app has run since the order was placed - not by the module's batch counter, which stands still when a     *)
+(* whole batch is rolled back                                                                                        *)
+EbOf(j, o) == LET m == {x \in Range(j.og) : x.app = o.app /\ x.pair = o.pair /\ x.id = o.id} IN
+              IF m = {} THEN 0 ELSE (CHOOSE x \in m : TRUE).eb
+CancelAnte(nd, pj, s) == LET a == nd.args IN
   /\ nd.a = "CancelOrder" /\ a.app \in AppIds /\ HasOrder(s, a.app, a.pair, a.id)
-  /\ LET o == OrderOf(s, a.app, a.pair, a.id) IN Live(o) /\ o.owner = a.u /\ o.batch # PairOf(s, a.app, a.pair).batch
-C07Cancellable(nd, s, s2) == CancelAnte(nd, s) =>
+  /\ LET o == OrderOf(s, a.app, a.pair, a.id) IN Live(o) /\ o.owner = a.u /\ EbOf(pj, o) >= 1
+C07Cancellable(nd, pj, s, s2) == CancelAnte(nd, pj, s) =>
   LET a == nd.args IN nd.res.ok /\ HasOrder(s2, a.app, a.pair, a.id) /\ OrderOf(s2, a.app, a.pair, a.id).status = "X"
 EarlierMM(nd, s) == LET a == nd.args IN
   IF nd.a \in {"CancelMM", "MMOrder"} /\ nd.res.ok
   THEN {o \in s.orders : o.app = a.app /\ o.pair = a.pair /\ o.owner = a.u /\ o.typ = "MM" /\ Live(o)} ELSE {}
 C07MMReplace(nd, s, s2) ==
   \A o \in EarlierMM(nd, s) : HasOrder(s2, o.app, o.pair, o.id) /\ OrderOf(s2, o.app, o.pair, o.id).status = "X"
-C07CancelAll(nd, s, s2) == nd.a = "CancelAll" /\ nd.res.ok => C07CancelAllEnds(s, s2, nd.args)
+CancelAllTargetsG(pj, s, a) == {o \in s.orders : /\ o.app = a.app /\ o.owner = a.u /\ Live(o)
+                                                 /\ (a.pairs = <<>> \/ o.pair \in Range(a.pairs)) /\ EbOf(pj, o) >= 1}
+C07CancelAll(nd, pj, s, s2) == nd.a = "CancelAll" /\ nd.res.ok =>
+  \A o \in CancelAllTargetsG(pj, s, nd.args) : HasOrder(s2, o.app, o.pair, o.id) /\ OrderOf(s2, o.app, o.pair, o.id).status = "X"
 (* the escrow covers every live claim once the recorded matching residue (amm family) is accounted for: *)
 (* any OTHER leak out of a pair escrow violates this even in runs that hit the known non-conserving match *)
 C07CoversNet(nd, s2) ==
@@ -184,8 +192,8 @@ Holds(f, nd, pj, s, s2) ==
     [] f = "C04_ZeroSupplyDisabled" -> C04ZeroDisabled(s2)
     [] f = "C04_SupplyOnlyByPoolOps" -> (step => C04SupplyStep(s, s2))
     [] f = "C07_OwnerLedger" -> (step => C07Ledger(nd, s, s2))
-    [] f = "C07_Cancellable" -> (step => C07Cancellable(nd, s, s2))
-    [] f = "C07_CancelAll" -> (step => C07CancelAll(nd, s, s2))
+    [] f = "C07_Cancellable" -> (step => C07Cancellable(nd, pj, s, s2))
+    [] f = "C07_CancelAll" -> (step => C07CancelAll(nd, pj, s, s2))
     [] f = "C07_MMReplace" -> (step => C07MMReplace(nd, s, s2))
     [] f = "C07_EscrowCovers" -> C07EscrowCovers(s2)
     [] f = "C07_EscrowCoversNet" -> C07CoversNet(nd, s2)
@@ -202,7 +210,7 @@ IndexHole(s, a) == LET ids == MMXOf(s, a.app, a.pair, a.u).ids IN
   \E i \in DOMAIN ids : \E j \in DOMAIN ids : i < j /\ ~HasOrder(s, a.app, a.pair, ids[i])
                            /\ HasOrder(s, a.app, a.pair, ids[j]) /\ Live(OrderOf(s, a.app, a.pair, ids[j]))
 Flags(i) ==
-  LET nd == Nd(i) s == Pre(i) s2 == Post(i) step == nd.parent > 0 IN
+  LET nd == Nd(i) s == Pre(i) s2 == Post(i) pj == PreJ(i) step == nd.parent > 0 IN
   [ step |-> step, ok |-> step /\ nd.res.ok,
     placed |-> step /\ nd.a \in {"LimitOrder", "MarketOrder", "MMOrder"} /\ nd.res.ok,
     marketPlaced |-> step /\ nd.a = "MarketOrder" /\ nd.res.ok,
@@ -213,9 +221,23 @@ Flags(i) ==
     roundedUpPlaced |-> step /\ nd.a \in {"LimitOrder", "MarketOrder", "MMOrder"} /\ nd.res.ok /\ \E o \in s2.orders \ s.orders :
                           o.dir = "B" /\ (o.price * o.amt) % PS # 0,
     marketPartialEnd |-> step /\ \E o \in s2.orders : o.typ = "M" /\ ~Live(o) /\ o.rem > 0 /\ o.rem < o.offer /\ Was(s, o),
-    cancel |-> step /\ CancelAnte(nd, s),
-    cancelAll |-> step /\ nd.a = "CancelAll" /\ nd.res.ok /\ CancelAllTargets(s, nd.args) # {},
-    cancelAllMixed |-> step /\ nd.a = "CancelAll" /\ nd.res.ok /\ \E o \in CancelAllTargets(s, nd.args) :
+    cancel |-> step /\ CancelAnte(nd, pj, s),
+    foreignCoin |-> step /\ nd.a \in {"LimitOrder", "MarketOrder"} /\ "od" \in DOMAIN nd.args /\ HasPair(s, nd.args.app, nd.args.pair)
+                       /\ ~CoinsOfPair(nd.args, PairOf(s, nd.args.app, nd.args.pair))
+                       /\ \E v \in LiveOf(s, PairOf(s, nd.args.app, nd.args.pair)) : v.owner # nd.args.u /\ v.dir = nd.args.dir,
+    foreignOfferOnly |-> step /\ nd.a \in {"LimitOrder", "MarketOrder"} /\ "od" \in DOMAIN nd.args /\ HasPair(s, nd.args.app, nd.args.pair)
+                       /\ LET pr == PairOf(s, nd.args.app, nd.args.pair) IN
+                          nd.args.od \notin {pr.base, pr.quote} /\ nd.args.dd = (IF nd.args.dir = "B" THEN pr.base ELSE pr.quote)
+                          /\ \E v \in LiveOf(s, pr) : v.owner # nd.args.u /\ v.dir = nd.args.dir,
+    demandExceedsRest |-> step /\ nd.a = "EndBlock" /\ \E o \in s.orders : o.dir = "S" /\ o.status = "PM" /\ HasOrder(s2, o.app, o.pair, o.id)
+                       /\ OrderOf(s2, o.app, o.pair, o.id).status = "C"
+                       /\ \E b \in s2.orders : b.app = o.app /\ b.pair = o.pair /\ b.dir = "B" /\ Live(b) /\ HasOrder(s, b.app, b.pair, b.id)
+                                               /\ OrderOf(s, b.app, b.pair, b.id).recv < b.recv,
+    lowPriceFill |-> step /\ nd.a = "EndBlock" /\ \E p \in s2.pairs : p.lp > 0 /\ p.lp < 5000 /\ HasPair(s, p.app, p.id) /\ PairOf(s, p.app, p.id).lp > 0
+                       /\ PairOf(s, p.app, p.id).lp < p.lp
+                       /\ \E o \in s2.orders : o.app = p.app /\ o.pair = p.id /\ HasOrder(s, o.app, o.pair, o.id) /\ OrderOf(s, o.app, o.pair, o.id).recv < o.recv,
+    cancelAll |-> step /\ nd.a = "CancelAll" /\ nd.res.ok /\ CancelAllTargetsG(pj, s, nd.args) # {},
+    cancelAllMixed |-> step /\ nd.a = "CancelAll" /\ nd.res.ok /\ \E o \in CancelAllTargetsG(pj, s, nd.args) :
                           \E f \in s.orders : f.app = o.app /\ f.owner = o.owner /\ Live(f) /\ f.pair < o.pair /\ f.batch = PairOf(s, f.app, f.pair).batch
                                                 /\ (nd.args.pairs = <<>> \/ f.pair \in Range(nd.args.pairs)),
     mmImproved |-> step /\ nd.a = "EndBlock" /\ \E o \in s2.orders : o.typ = "MM" /\ o.status = "C" /\ o.rem > 0 /\ Was(s, o)
@@ -247,10 +269,70 @@ Flags(i) ==
     activeUnfarm |-> step /\ nd.a \in {"Unfarm", "UnfarmAndWithdraw"} /\ nd.res.ok /\ \E r \in s.af : r \notin s2.af,
     ledger |-> step /\ \E u \in LedgerUsers(nd, s, s2) : \E d \in {"uaa", "ubb", "ucc"} : C07OwnerFlow(s, s2, u, d) # 0,
     residue |-> nd.st.tainted ]
-FL == [i \in 1..NLog |-> Flags(i)]
+(* ---- vacuity counters defined on the PRE-state and the REQUEST only (what was asked of the code, not what the  *)
+(* code made of it): these are the ones a green result requires; the outcome counters of Flags are informational  *)
+BookOf(s, p) == {o \in LiveOf(s, p) : InBook(s, o)}
+ReqPrice(s, nd) == LET a == nd.args par == s.par[a.app] pr == PairOf(s, a.app, a.pair) IN
+  IF nd.a = "LimitOrder" THEN (IF a.dir = "B" THEN TickDown(a.price, par.prec) ELSE TickUp(a.price, par.prec))
+  ELSE (IF a.dir = "B" THEN LimHi(pr.lp, par.prec) ELSE LimLo(pr.lp, par.prec))
+OrderReq(s, nd) == nd.a \in {"LimitOrder", "MarketOrder"} /\ nd.args.app \in AppIds /\ HasPair(s, nd.args.app, nd.args.pair)
+                   /\ (nd.a = "LimitOrder" => nd.args.price > 0) /\ (nd.a = "MarketOrder" => PairOf(s, nd.args.app, nd.args.pair).lp > 0)
+PartialLive(o) == Live(o) /\ o.rem > 0 /\ o.rem < o.offer /\ o.typ # "MM"
+EndedByReq(nd, pj, s, o) ==                                   \* the request / the due batch is to end order o
+  \/ nd.a = "CancelOrder" /\ nd.args.app = o.app /\ nd.args.pair = o.pair /\ nd.args.id = o.id /\ nd.args.u = o.owner /\ EbOf(pj, o) >= 1
+  \/ nd.a = "CancelAll" /\ o \in CancelAllTargetsG(pj, s, nd.args)
+  \/ nd.a = "EndBlock" /\ BatchDue(s, o.app) /\ o.exp <= s.t
+MMReq(nd, pj, s) == IF nd.a \in {"CancelMM", "MMOrder"} /\ nd.args.app \in AppIds /\ HasPair(s, nd.args.app, nd.args.pair)
+                    THEN {o \in s.orders : o.app = nd.args.app /\ o.pair = nd.args.pair /\ o.owner = nd.args.u /\ o.typ = "MM" /\ Live(o) /\ EbOf(pj, o) >= 1}
+                    ELSE {}
+FarmReq(s, nd) == nd.a \in {"Unfarm", "UnfarmAndWithdraw"} /\ nd.args.app \in AppIds /\ nd.args.pool # 0 /\ HasPool(s, nd.args.app, nd.args.pool)
+                  /\ HasQF(s, nd.args.app, nd.args.pool, nd.args.u) /\ HasAF(s, nd.args.app, nd.args.pool, nd.args.u)
+ReqFlags(i) ==
+  LET nd == Nd(i) s == Pre(i) pj == PreJ(i) step == nd.parent > 0 a == nd.args isEnd == nd.a = "EndBlock" IN
+  [ rqOrder |-> step /\ (OrderReq(s, nd) \/ (nd.a = "MMOrder" /\ a.app \in AppIds /\ HasPair(s, a.app, a.pair))),
+    rqMarket |-> step /\ nd.a = "MarketOrder" /\ OrderReq(s, nd),
+    rqMarketBoundary |-> step /\ nd.a = "MarketOrder" /\ OrderReq(s, nd) /\ a.dir = "B" /\
+                         LET P == ReqPrice(s, nd) off == BuyOffer(ReqPrice(s, nd), a.amt) IN
+                         (P * a.amt) % PS # 0 /\ Fee(s.par[a.app], off) > Fee(s.par[a.app], off - 1),
+    rqFeeStep |-> step /\ OrderReq(s, nd) /\ LET off == OfferFor(a.dir, ReqPrice(s, nd), a.amt) IN Fee(s.par[a.app], off) > Fee(s.par[a.app], off - 1),
+    rqRoundedUp |-> step /\ OrderReq(s, nd) /\ a.dir = "B" /\ (ReqPrice(s, nd) * a.amt) % PS # 0,
+    rqPartialEnd |-> step /\ \E o \in s.orders : PartialLive(o) /\ EndedByReq(nd, pj, s, o),
+    rqMarketPartialEnd |-> step /\ \E o \in s.orders : PartialLive(o) /\ o.typ = "M" /\ EndedByReq(nd, pj, s, o),
+    rqExpiryDue |-> step /\ isEnd /\ \E o \in s.orders : Live(o) /\ o.exp <= s.t /\ BatchDue(s, o.app),
+    rqCrossing |-> step /\ isEnd /\ \E p \in s.pairs : BatchDue(s, p.app) /\ \E b \in BookOf(s, p) : \E sl \in BookOf(s, p) :
+                         b.dir = "B" /\ sl.dir = "S" /\ b.price >= sl.price,
+    rqCancelAll |-> step /\ nd.a = "CancelAll" /\ a.app \in AppIds /\ (\A k \in Range(a.pairs) : HasPair(s, a.app, k)) /\ CancelAllTargetsG(pj, s, a) # {},
+    rqCancelAllMixed |-> step /\ nd.a = "CancelAll" /\ a.app \in AppIds /\ (\A k \in Range(a.pairs) : HasPair(s, a.app, k)) /\
+                         \E o \in CancelAllTargetsG(pj, s, a) : \E f \in s.orders :
+                            f.app = o.app /\ f.owner = o.owner /\ Live(f) /\ f.pair < o.pair /\ EbOf(pj, f) = 0 /\ (a.pairs = <<>> \/ f.pair \in Range(a.pairs)),
+    rqMM |-> step /\ MMReq(nd, pj, s) # {},
+    rqMMDiff |-> step /\ MMReq(nd, pj, s) # {} /\ a.app # a.pair,
+    rqMMPartial |-> step /\ MMReq(nd, pj, s) # {} /\ a.app = a.pair /\ \E o \in MMReq(nd, pj, s) : o.status = "PM",
+    rqMMIndexHole |-> step /\ MMReq(nd, pj, s) # {} /\ HasMMX(s, a.app, a.pair, a.u) /\ IndexHole(s, a),
+    rqMMImproved |-> step /\ isEnd /\ \E p \in s.pairs : BatchDue(s, p.app) /\ p.lp > 0 /\ \E b \in BookOf(s, p) : \E sl \in BookOf(s, p) :
+                         b.typ = "MM" /\ b.dir = "B" /\ b.price > p.lp /\ sl.dir = "S" /\ sl.price <= p.lp /\ sl.open >= b.open
+                         /\ \E x \in LiveOf(s, p) : x.dir = "B" /\ x # b,
+    rqDemandExceedsRest |-> step /\ isEnd /\ \E p \in s.pairs : BatchDue(s, p.app) /\ \E o \in BookOf(s, p) : \E b \in BookOf(s, p) :
+                         o.dir = "S" /\ o.status = "PM" /\ b.dir = "B" /\ b.price >= o.price /\ b.open > o.open /\ b.open <= o.amt,
+    rqLowResidual |-> step /\ isEnd /\ \E p \in s.pairs : BatchDue(s, p.app) /\ p.lp > 0 /\ p.lp < 5000 /\
+                         \E s1 \in BookOf(s, p) : \E s3 \in BookOf(s, p) : \E b \in BookOf(s, p) :
+                            s1.dir = "S" /\ s3.dir = "S" /\ s1.price = s3.price /\ s1.price > p.lp /\ s1.batch # s3.batch
+                            /\ b.dir = "B" /\ b.price >= s1.price /\ b.open > s1.open /\ (b.open - s1.open) * s1.price < PS,
+    rqFarmStaggered |-> step /\ isEnd /\ \E q \in s.qf : BatchDue(s, q.app) /\ AnyRipe(s, q.q)
+                         /\ \E o \in s.qf : o.app = q.app /\ o.pool = q.pool /\ o.owner # q.owner /\ \E k \in DOMAIN o.q : ~Mature(s, o.q[k]),
+    rqFarmTopUp |-> step /\ isEnd /\ \E q \in s.qf : BatchDue(s, q.app) /\ AnyRipe(s, q.q) /\ HasAF(s, q.app, q.pool, q.owner),
+    rqFarmTopUpDiff |-> step /\ isEnd /\ \E q \in s.qf : BatchDue(s, q.app) /\ AnyRipe(s, q.q) /\ HasAF(s, q.app, q.pool, q.owner)
+                         /\ PoolOf(s, q.app, q.pool).pair # q.pool,
+    rqActiveUnfarm |-> step /\ FarmReq(s, nd) /\ LET qs == SumQ(QFOf(s, a.app, a.pool, a.u).q) act == AFOf(s, a.app, a.pool, a.u).amt IN
+                         a.amt > qs /\ a.amt <= qs + act,
+    rqActiveZeroedDiff |-> step /\ FarmReq(s, nd) /\ a.pool # a.app /\
+                         LET qs == SumQ(QFOf(s, a.app, a.pool, a.u).q) act == AFOf(s, a.app, a.pool, a.u).amt IN act > 0 /\ a.amt = qs + act,
+    rqWholeSupply |-> step /\ ((isEnd /\ \E r \in Pending(s) : (r.kind = "W" /\ BatchDue(s, r.app) /\ ~PoolOf(s, r.app, r.pool).disabled
+                                                                   /\ r.pc = PoolOf(s, r.app, r.pool).ps))
+                                \/ (nd.a = "UnfarmAndWithdraw" /\ a.app \in AppIds /\ HasPool(s, a.app, a.pool) /\ a.amt = PoolOf(s, a.app, a.pool).ps)),
+    rqReqExec |-> step /\ isEnd /\ \E r \in Pending(s) : BatchDue(s, r.app) ]
+FL == [i \in 1..NLog |-> Flags(i) @@ ReqFlags(i)]
 Cnt(f) == Cardinality({i \in 1..NLog : FL[i][f]})
-Stats == PrintT(<<"STATS", [k \in {"step", "ok", "placed", "marketPlaced", "marketBoundary", "feeStepPlaced", "roundedUpPlaced", "marketPartialEnd", "cancel", "cancelAll", "cancelAllMixed", "mmImproved", "mmIndexHole", "mm", "mmDiff", "mmPartial", "completed", "expired", "canceled", "partialEnd", "filled",
-                                   "emptied", "farmed", "activeFarm", "farmStaggered", "activeZeroedDiff", "farmTopUp", "farmTopUpDiff", "supply", "pending", "disabled", "zeroSupply", "activeUnfarm", "ledger", "residue"} |-> Cnt(k)]
-                            @@ [nodes |-> NLog]>>)
+Stats == PrintT(<<"STATS", [k \in DOMAIN FL[1] |-> Cnt(k)] @@ [nodes |-> NLog]>>)
 AllSeen == Stats /\ TLCGet("stats").distinct = NLog + NB + 1
 =============================================================================
